@@ -48,6 +48,40 @@ def auto_summarise(I, st, env, rng):
     snap_vars = dict(env.vars)
     cache = {}
 
+    # mutable objects that exist before the loop: element writes A[k] = v(k) at the loop index are captured
+    # (point-wise update loop); any other write to them from the body is out of reach
+    outer_arrs, outer_objs = {}, set()
+
+    def scan(v, depth=0):
+        if depth > 3:
+            return
+        if isinstance(v, Arr):
+            outer_arrs[id(v)] = v
+        elif isinstance(v, Obj):
+            if id(v) in outer_objs:
+                return
+            outer_objs.add(id(v))
+            for x in v.attrs.values():
+                scan(x, depth + 1)
+        elif isinstance(v, (list, tuple)):
+            outer_objs.add(id(v))
+            for x in v[:200]:
+                scan(x, depth + 1)
+        elif isinstance(v, dict):
+            outer_objs.add(id(v))
+            for x in v.values():
+                scan(x, depth + 1)
+        elif isinstance(v, OpenDict):
+            outer_objs.add(id(v))
+            for x in v.entries.values():
+                scan(x, depth + 1)
+
+    e_ = env
+    while e_ is not None:
+        for v_ in e_.vars.values():
+            scan(v_)
+        e_ = e_.parent
+
     def body_at(i):
         """Run the body (in a snapshot of the scope taken at loop time) with the loop variable bound to
         item i; returns {id(list): appended value}."""
@@ -61,6 +95,8 @@ def auto_summarise(I, st, env, rng):
         saved = {lid: list(v) for lid, (v, _) in outer_lists.items() if isinstance(v, list)}
         I.assign_target(st.target, rng.item(i), senv)
         ctx.merge_mode += 1
+        frame = {"arrs": outer_arrs, "objs": outer_objs, "writes": [], "reads": set()}
+        ctx.loop_capture.append(frame)
         try:
             I.exec_block(st.body, senv)
         except Exception as ex:
@@ -71,6 +107,21 @@ def auto_summarise(I, st, env, rng):
             raise
         finally:
             ctx.merge_mode -= 1
+            ctx.loop_capture.pop()
+        item_t = rng.item(i)
+        item_t = item_t.t if isinstance(item_t, Sym) else item_t
+        for (arr, idx, val) in frame["writes"]:
+            if rng.arr is not None:
+                raise Unsupported("element write inside a summarised loop over a series")
+            same = (idx == item_t) if isinstance(idx, int) and isinstance(item_t, int) else (
+                z3.is_expr(idx) and z3.is_expr(item_t) and z3.simplify(idx == item_t).eq(z3.BoolVal(True)))
+            if not same:
+                raise Unsupported("summarised loop writes an outer array at an index other than the loop variable")
+            if id(arr) in frame["reads"]:
+                raise Unsupported("summarised loop reads an outer array it also writes (loop-carried dependence)")
+            if ("w", id(arr)) in captured:
+                raise Unsupported("summarised loop writes the same outer array twice per iteration")
+            captured[("w", id(arr))] = val
         for lid, (v, _) in outer_lists.items():
             if isinstance(v, list):
                 old = saved[lid]
@@ -108,7 +159,35 @@ def auto_summarise(I, st, env, rng):
         if isinstance(n, ast.Name):
             temporaries.add(n.id)
 
+    lo_t = ops.as_int_term(rng.start) if rng.arr is None else None
+    for key_, elem_probe in list(probe.items()):
+        if not (isinstance(key_, tuple) and key_[0] == "w"):
+            continue
+        arr = outer_arrs[key_[1]]
+        old = arr.copy()
+
+        def wfn(i, key_=key_, elem_probe=elem_probe, old=old, arr=arr):
+            it = i if not isinstance(i, int) else z3.IntVal(i)
+            inside = simp(Sym(z3.And(it >= lo_t, it < lo_t + cnt_t), "bool"))
+            if isinstance(inside, bool) and not inside:
+                return old.get(i)
+            # loop index whose item is i:  i - start
+            pos = z3.simplify(it - lo_t)
+            if pure_probe and not isinstance(elem_probe, (Obj, list, tuple, dict, Arr)):
+                nv = elem_probe if not isinstance(elem_probe, Sym) else simp(Sym(z3.substitute(elem_probe.t, (k.t, pos)), elem_probe.kind))
+            else:
+                nv = body_at(pos if not z3.is_int_value(pos) else pos.as_long())[key_]
+            nv = ops.cast_elem(nv, arr.dtype) if arr.is_nd else nv
+            if isinstance(inside, bool):
+                return nv
+            return ops.ite(inside, nv, old.get(i))
+
+        arr.elems, arr.fn = None, wfn
+        if arr.concrete_len() and False:
+            arr.materialise()
     for lid, elem_probe in probe.items():
+        if isinstance(lid, tuple):
+            continue
         v, refs = outer_lists[lid]
 
         def fn(i, lid=lid, elem_probe=elem_probe):
